@@ -286,8 +286,8 @@ MUTANTS = {
         "edits": [("Lib/fontTools/ttLib/tables/_p_o_s_t.py", "            if glyphName in self.mapping:\n                psName = self.mapping[glyphName]\n            else:\n                psName = glyphName\n            if psName in extraDict:", "            psName = self.mapping.get(glyphName) or glyphName\n            if psName in extraDict:")],
         "check": ["C01", "--tier", "quick"],
     },
-    "c16_observing_changes_head": {
-        "edits": [("Lib/fontTools/ttLib/tables/_h_e_a_d.py", "        if ttFont.recalcTimestamp:\n            self.modified = timestampNow()", "        if ttFont.recalcTimestamp:\n            self.modified = timestampNow()\n        self.fontRevision = round(self.fontRevision, 2)")],
+    "c16_dumping_drops_a_name_record": {
+        "edits": [("Lib/fontTools/ttLib/tables/_n_a_m_e.py", "    def toXML(self, writer, ttFont):\n        for name in self.names:\n            name.toXML(writer, ttFont)\n", "    def toXML(self, writer, ttFont):\n        for name in self.names:\n            name.toXML(writer, ttFont)\n        if len(self.names) > 3:\n            self.names = self.names[:-1]\n")],
         "check": ["C16", "--tier", "quick", "--only", "hist,hist_ensure"],
     },
 }
